@@ -141,7 +141,15 @@ int fiber_join(fiber_t* f, void** result) {
     // need to wait till the fiber finishes
     fiber_manager_t* const manager = fiber_manager_get();
     fiber_t* const current_fiber = manager->current_fiber;
+    current_fiber->scratch = NULL;
     fiber_manager_set_and_wait(manager, (void**)&f->join_info, current_fiber);
+    if (current_fiber->scratch == f) {
+      // woken by fiber_detach(): the fiber was detached while we waited and has
+      // not finished, so there is no result to deliver. 'f' is only compared,
+      // never dereferenced - it may be gone by now
+      current_fiber->scratch = NULL;
+      return FIBER_ERROR;
+    }
     if (result) {
       *result = current_fiber->result;
     }
@@ -213,6 +221,10 @@ int fiber_detach(fiber_t* f) {
     // convenience, pthreads specifies undefined behaviour in that case)
     fiber_t* const to_schedule = fiber_manager_clear_or_wait(
         fiber_manager_get(), (_Atomic(void*)*)&f->join_info);
+    if (to_schedule != f) {
+      // a fiber blocked in fiber_join(f): tell it that its join failed
+      to_schedule->scratch = f;
+    }
     to_schedule->state = FIBER_STATE_READY;
     fiber_manager_schedule(fiber_manager_get(), to_schedule);
   } else if (old_state == FIBER_DETACH_DETACHED) {
